@@ -85,7 +85,7 @@ structure LinkClass (g : MG Name) (o c : Event) (comps : List (List Var)) : Prop
   comps_ok : condComps g o c = .ok comps
   oneWorld : ∀ a ∈ comps.flatten, ∀ b ∈ comps.flatten, a.name = b.name → a = b
   found : OutcomesFound g o c = true
-  outNodup : (o.map (·.1.name)).Nodup
+  outSame : ∀ p ∈ o, ∀ q ∈ o, p.1.name = q.1.name → p = q
   noSelf : ∀ p ∈ o ++ c, p.1.name ∉ subNames p.1
   cons : ∀ p ∈ o ++ c, ConsistentSubs p.1.ivs
   lit : ∀ p ∈ o ++ c, ∀ i ∈ p.1.ivs, (∃ a ∈ comps.flatten, a.name = i.name) → i.name ∈ eventNames c
@@ -99,7 +99,7 @@ theorem linkClass_of (g : MG Name) (o c : Event) (h : ctfTRLinkClass g o c = tru
     rw [hc] at h
     simp only [Bool.and_eq_true, decide_eq_true_eq] at h
     obtain ⟨⟨⟨⟨h1, h2⟩, h4⟩, h5⟩, h6⟩ := h
-    refine ⟨comps, ⟨hc, ?_, h2, h4, ?_, ?_, ?_⟩⟩
+    refine ⟨comps, ⟨hc, ?_, h2, ?_, ?_, ?_, ?_⟩⟩
     · intro a ha b hb hab
       rw [List.all_eq_true] at h1
       have := h1 a ha
@@ -108,6 +108,15 @@ theorem linkClass_of (g : MG Name) (o c : Event) (h : ctfTRLinkClass g o c = tru
       simp only [Bool.or_eq_true, bne_iff_ne, ne_eq, decide_eq_true_eq] at this
       rcases this with h' | h'
       · exact absurd hab h'
+      · exact h'
+    · intro p hp q hq hpq
+      rw [List.all_eq_true] at h4
+      have := h4 p hp
+      rw [List.all_eq_true] at this
+      have := this q hq
+      simp only [Bool.or_eq_true, bne_iff_ne, ne_eq, decide_eq_true_eq] at this
+      rcases this with h' | h'
+      · exact absurd hpq h'
       · exact h'
     · intro p hp
       rw [List.all_eq_true] at h5
